@@ -9,11 +9,16 @@ failing dependency = resumed by throw(), return or raise) and a few concurrent "
 failure, dirty().
 
 Everything the program does is logged in order: every call with the identity token of the task it returned and whether
-that object is new, every start (with what the body actually bound) / resume / suspend of a body, every completion,
-every dirty, and len(DeduplicateDecorator.tasks) after each.  The Lean model (AsynqModel.Lib.Dedup: get_args_tuple as
+that object is new, every start (with what the body actually bound) / resume / suspend of a body, every completion (with
+how the BODY ended, written by the body itself), what every reader of a task RECEIVED (`await`: the value an awaiting actor
+was sent / the error it was thrown, what a completion subscriber reads, what .value() on a driving thread returns),
+every `.asynq()` issued in asyncio mode (`aioCall`: a coroutine, never a task), every dirty, and
+len(DeduplicateDecorator.tasks) after each.  Before anything runs the DECORATION PHASE is observed: the keygetter every
+real decorated function carries is applied to probe arguments (`kg` header items) and compared with the keygetter the
+model's decoration phase hands to that function.  The Lean model (AsynqModel.Lib.Dedup: get_args_tuple as
 written in qcore + the table operations of DeduplicateDecorator) replays the same operations (correspondence) and the
 Lean observer `Dedup.spec` (the statement of C12 over bindings, proved of the model for ALL histories whose calls /
-dirty() satisfy `callOk`, see ASSUMPTIONS) judges the implementation's observations on their own.
+dirty() satisfy the per-call condition `callOk`, see ASSUMPTIONS) judges the implementation's observations on their own.
 
 The default key is known to conflate different calls in three situations; each is modelled as the code is, has a
 machine-checked counterexample and a clause name of its own (stable signature):
@@ -32,9 +37,9 @@ run), then repeated calls for the oldest / middle / newest keys - the number of 
 
 Round 4 dimensions (interactions): the DECORATION PHASE is part of the case (`deco`: which deduplicate() object and which
 asynq() object decorates which function, in which order - one object on several functions with different signatures; Lean:
-DecoObj / decorateAll, C12_keygetter_per_function; the header carries `(deco n (fn obj)...)` and the driver runs the model's
-decoration phase); EVENTS OF OTHER FEATURES are operations of the history (Lean: Op.outside - a no-op of the model, `unit` and
-an unchanged len(tasks) for the observer): a debug option switched in mid-flight (12 options), a garbage collection,
+DecoObj / decorateAll; the header carries `(deco n (fn obj)...)` and `(kg fn (args) (kw) (ok toks...))` probes of the REAL
+keygetters, the driver runs the model's decoration phase and compares - Drv.Dedup.kgMismatch); EVENTS OF OTHER FEATURES are operations of the history (Lean: Op.outside - a no-op of the model, `unit` and
+an unchanged len(tasks) for the observer): a debug / profiling option switched in mid-flight (13 options), a garbage collection,
 asynq.mock.patch entered and left on the function, the synchronous call f(args), the function used in asyncio mode (await
 f.asyncio(..) / f.asynq(..) inside a running fn.asyncio()) while asynq-mode calls of the same key are in flight; tasks that
 were created by one thread are DRIVEN to completion by another (`drive`: .value() on thread th, at top level); bodies blocked
@@ -47,36 +52,44 @@ import random
 PID = "C12"
 LEVEL = "proof"
 LEAN_MODULES = ["AsynqModel.Theorems.C12"]
+# HEADLINE: statements with content about the model over ALL histories / all signatures (each hypothesis has a machine-checked
+# necessity witness, see MANIFEST level_note).
 HEADLINE = [
-    "AsynqModel.Dedup.C12_spec_holds_partial",
-    "AsynqModel.Dedup.C12_spec_holds_sigs",
-    "AsynqModel.Dedup.C12_spec_needs_histOk",
-    "AsynqModel.Dedup.C12_key_normal_partial",
+    "AsynqModel.Dedup.C12_spec_holds_partial",            # every history with histOk (per call): model's observations pass `spec`
+    "AsynqModel.Dedup.C12_spec_holds_sigs",               # corollary for declarations whose signatures are all Sig.ok
+    "AsynqModel.Dedup.C12_spec_needs_histOk",             # necessity of histOk: the model's own run fails `spec` in each conflation
+    "AsynqModel.Dedup.C12_histOk_per_call",               # histOk holds on conflation-open signatures when no call has the bad shape
+    "AsynqModel.Dedup.C12_flat_implies_per_call",         # the former whole-signature condition implies the per-call one
+    "AsynqModel.Dedup.C12_key_normal_partial",            # callOk calls: key equal <=> binding equal
     "AsynqModel.Dedup.C12_key_normal_counterexample",
     "AsynqModel.Dedup.C12_key_posonly_counterexample",
     "AsynqModel.Dedup.C12_key_pair_counterexample",
-    "AsynqModel.Dedup.C12_valid_call_has_key",
+    "AsynqModel.Dedup.C12_valid_call_has_key",            # the keygetter never raises on a call that binds
+    "AsynqModel.Dedup.C12_rerun_after_complete",          # reachable states: completion then call => new registered task
+    "AsynqModel.Dedup.C12_disjoint",                      # operations touch the entry of their own key only
+    "AsynqModel.Dedup.C12_instances_disjoint",
+    "AsynqModel.Dedup.C12_shared_task_has_callers_key",   # a shared task was created under the caller's own key, is live
+    "AsynqModel.Dedup.C12_entry_survives_others",
+    "AsynqModel.Dedup.C12_entry_kept_while_calm",
+    "AsynqModel.Dedup.C12_one_creation_per_period",       # one registered task per in-flight period
+    "AsynqModel.Dedup.C12_shared_while_calm",
+    "AsynqModel.Dedup.C12_same_outcome_for_all_callers",  # any two readers of one task receive the same outcome
+]
+# true by construction of the model (one branch of `step` restated for an arbitrary state, a guard written into `step`,
+# `DecoObj.apply` returning what it was given, a no-op constructor): their content is the correspondence, they are NOT
+# headline claims (tools/gen_status.py prints them as "+k by construction")
+BY_CONSTRUCTION = [
     "AsynqModel.Dedup.C12_completion_keeps_newer",
     "AsynqModel.Dedup.C12_inflight_shared",
     "AsynqModel.Dedup.C12_running_escape_private",
-    "AsynqModel.Dedup.C12_rerun_after_complete",
     "AsynqModel.Dedup.C12_rerun_after_dirty",
-    "AsynqModel.Dedup.C12_disjoint",
-    "AsynqModel.Dedup.C12_instances_disjoint",
-    "AsynqModel.Dedup.C12_shared_task_has_callers_key",
-    "AsynqModel.Dedup.C12_entry_survives_others",
-    "AsynqModel.Dedup.C12_entry_kept_while_calm",
-    "AsynqModel.Dedup.C12_one_creation_per_period",
-    "AsynqModel.Dedup.C12_shared_while_calm",
     "AsynqModel.Dedup.C12_body_starts_once",
-    "AsynqModel.Dedup.C12_inflight_survives_outside",
+    "AsynqModel.Dedup.C12_inflight_survives_outside",     # corollary of C12_entry_kept_while_calm for no-op steps
     "AsynqModel.Dedup.C12_keygetter_per_function",
     "AsynqModel.Dedup.C12_decoration_agrees_with_step",
-]
-# true by construction of the model (no code path in tools.py either); their content is the correspondence
-BY_CONSTRUCTION = [
     "AsynqModel.Dedup.C12_thread_end_noop",
     "AsynqModel.Dedup.C12_outside_noop",
+    "AsynqModel.Dedup.C12_asyncio_mode_unshared",
 ]
 THEOREMS = HEADLINE + BY_CONSTRUCTION
 BUILDS = {"quick": ["py"], "thorough": ["py", "cy"]}
@@ -100,7 +113,7 @@ RULE = ("real asynq programs: 1-3 @deduplicate() functions (function / method on
         "4 layouts: one function / two functions / method on 3 instances / 3 threads; blocked on a batch or never run); "
         "round 4 (interactions): 40% of the cases with >= 2 functions apply ONE deduplicate() object (and, half of them, one "
         "asynq() object) to several functions in a random order; 30% of the cases contain events of other features in "
-        "mid-flight (12 debug options switched, gc.collect(), asynq.mock.patch entered and left, the synchronous call "
+        "mid-flight (12 debug options and COLLECT_PERF_STATS switched, gc.collect(), asynq.mock.patch entered and left, the synchronous call "
         "f(args)) in actors and inside bodies; 22% have top-level activity before / between computations: leftover tasks "
         "driven to completion by another thread or by the creating one, the function used in asyncio mode in 3 ways, "
         "further calls / dirty(); bodies block on debug.sync() (1 step in 11); 12% of the calls through an instance use "
@@ -108,42 +121,58 @@ RULE = ("real asynq programs: 1-3 @deduplicate() functions (function / method on
         "interaction schedules (one object on 14 pairs / 9 triples of different signatures in both orders, "
         "create-here-complete-there for value / failure / debug.sync bodies x 4 thread pairs, asyncio mode before and "
         "while in flight, every option switched while blocked, wrappers and copies); "
+        "round 5: every completion is followed by what its subscriber reads, every resumed actor logs what it was sent / "
+        "thrown for each deduplicated task it awaited, .value() on a driving thread logs what it returned (`await`); the "
+        ".asynq() calls made in asyncio mode are operations (`aioCall`); up to 6 + 1 keygetter probes per function; "
         "non-trivial = at least two calls and at least one call that returned an already existing "
         "task or re-created a task for a call seen before; distinct by hash of the case")
 TRUSTED = [
     "hand-written Lean model AsynqModel.Lib.Dedup tied to the code by this differential run only",
-    "Python harness checks/c12.py (token <-> object identity mapping, event log written by the generated bodies, "
-    "len(DeduplicateDecorator.tasks) peek, identification of the deduplicate() / asynq() objects of the decoration phase)",
+    "Python harness checks/c12.py (token <-> object identity mapping, event log written by the generated bodies - start / "
+    "suspend / resume / how the body ended are written by the bodies themselves -, len(DeduplicateDecorator.tasks) peek, "
+    "identification of the deduplicate() / asynq() objects of the decoration phase, reading the public attribute "
+    "`keygetter` of the decorated functions)",
     "Python call binding incl. positional-only parameters (modelled by Sig.bind, compared with what every started body "
     "actually received), CPython generator send/throw semantics, qcore.decorators (decorate / DecoratorBase.__get__ / "
     "get_original_fn)",
     "the scheduler itself (when bodies start / resume / complete is an input of the model here; C01-C08 cover it); that a "
-    "task's body starts once is a clause of the observer (started-twice) judged on the implementation's log",
+    "task's body starts once is a clause of the observer (started-twice) judged on the implementation's log (the Lean "
+    "theorem C12_body_starts_once only restates the guard of the model: BY_CONSTRUCTION)",
 ]
 ASSUMPTIONS = [
-    "hypothesis of the `_partial` theorems (Lean: histOk / callOk, decidable): every call / dirty() goes to a function whose "
-    "signature does not combine *args with keyword-only parameters, nor positional-only parameters with **kwargs, and - "
-    "when the signature has both *args and **kwargs - passes no positional argument that is a ('name', value) 2-tuple. "
-    "Outside it the property is FALSE of the code (three machine-checked counterexamples, C12_spec_needs_histOk); such "
-    "cases are generated and reported under the clause names varargs-kwonly / posonly-varkw / varargs-varkw-pair",
+    "hypothesis of the `_partial` theorems (Lean: histOk / callOk, decidable, a condition on EACH CALL, not on whole "
+    "signatures): a call / dirty() of a function that combines *args with keyword-only parameters passes no overflow "
+    "positional; one of a function that combines positional-only parameters with **kwargs passes no keyword named like a "
+    "positional-only parameter; one of a function with both *args and **kwargs passes no positional argument that is a "
+    "('name', value) 2-tuple. Outside it the property is FALSE of the code (three machine-checked counterexamples; "
+    "necessity: C12_spec_needs_histOk, one witness per disjunct); such cases are generated and reported under the clause "
+    "names varargs-kwonly / posonly-varkw / varargs-varkw-pair (whether a call or a dirty() shows the conflation)",
     "argument values are hashable atoms compared by ==, or 2-tuples ('p<n>', atom); the model's key equality is equality "
     "of value TOKENS (normal form KeyElem.ofVal), so two "
     "distinct values whose hashes collide (-1 / -2, objects with a constant __hash__) are two different tokens and are "
     "generated on purpose; equal values of different types (1 == 1.0 == True) are one value",
-    "functions stay alive while their tasks are in flight (id(self.fn) is not reused: the task holds the function); in "
-    "asyncio mode .asynq() hands the call to .asyncio() before a key is made, so the statement ('returns the very same "
-    "task') does not speak about asyncio mode (C15's subject); what IS judged here: asyncio-mode use of the function makes, "
-    "uses and removes no table entry (an `outside` event)",
+    "functions stay alive while their tasks are in flight (id(self.fn) is not reused: the task holds the function)",
+    "ASYNCIO MODE IS OUTSIDE THE STATEMENT, and it is NOT deduplicated: under a running fn.asyncio(), .asynq() hands the "
+    "call to .asyncio() before a key is made (tools.py:355-356) and returns a coroutine - no task exists that a further "
+    "call could be 'the very same' as - so two such calls with one key run the body TWICE (reproduced on HEAD f0f10a3; "
+    "feature asyncio-mode-two-calls-one-key-ran-the-body-twice counts it in every run). The model has the operation "
+    "(Op.aioCall, answered `coro`, no table access: C12_asyncio_mode_unshared, by construction) and the observer judges "
+    "only that the answer is a coroutine, a new object per call, and that len(tasks) and everything in flight are "
+    "untouched. Deduplicating there would need one shared asyncio future per key - a feature, not a repair",
+    "every @asynq function is wrapped by exactly ONE deduplicate() application (the driver rejects a header in which a "
+    "function is decorated twice). Two deduplicate() wrappers around ONE @asynq function share tasks - the key holds "
+    "id(self.fn), the identity of the WRAPPED function (reproduced on HEAD); they are one function for the statement's "
+    "'different functions' (same code, same arguments, same result), so this is outside the statement and not generated",
     "events of other features (option switch, gc, mock.patch enter+exit, synchronous call, asyncio-mode use) are atomic "
     "for the history: bodies they start themselves (synchronous call / asyncio mode) return at once and are not logged; "
-    "COLLECT_PERF_STATS is not among the switched options (switched on in mid-flight it breaks every older task in the "
-    "pure-Python build - a defect of the profiling option, reported in INTEGRATION.md, not a matter of deduplicate); an "
-    "option that dumps is replaced by KEEP_DEPENDENCIES when an argument of the case cannot be printed",
+    "COLLECT_PERF_STATS is among the switched options (its two mid-flight defects were repaired in /repo: 9ee915e, "
+    "f0f10a3); an option that dumps is replaced by KEEP_DEPENDENCIES when an argument of the case cannot be printed",
     "`drive` happens at top level only (no scheduler is running on the main thread), on tasks that have not started; the "
     "acts a body would issue from inside are skipped while it runs on the driving thread",
     "@deduplicate() is applied to @asynq() generator functions only: @asynq(pure=True) functions have no .asynq attribute "
     "(AttributeError at the first call, by construction of PureAsyncDecorator) and @async_proxy() functions may return "
-    "futures that are not tasks (no `running` attribute; see INTEGRATION.md) - neither is part of the statement",
+    "futures that are not tasks (no `running` attribute: the second call raises AttributeError; DESIGN.md section 5 C12) - "
+    "neither is part of the statement",
     "receiver instances compare by identity (two instances that are == share a key by design of the key)",
     "one thread token per threading.Thread OBJECT (slot + 3 * incarnation); a retired thread is joined before its "
     "threadEnd is logged and never calls again; a new helper thread that did not get the ident of a finished, logged "
@@ -159,8 +188,18 @@ ASSUMPTIONS = [
     "creates nothing, that such a dirty() changes nothing when it raises, and - when it does not raise - gives up "
     "certainty only about the calls of that function on that thread that are in flight at that moment, until each is "
     "called again (Watch.poss); everything else is judged throughout the whole history",
-    "len(DeduplicateDecorator.tasks) is judged by bounds (sizeOk: +0/+1 for a new task, no growth on dirty()/completion, "
-    "unchanged otherwise); its exact value is compared with the model by the correspondence only",
+    "len(DeduplicateDecorator.tasks) is judged by bounds (sizeBound: +0/+1 for a new task, no growth on dirty()/"
+    "completion, unchanged otherwise) and EXACTLY wherever the observer knows the entry of the call (sizeExact: +1 for a "
+    "new task when nothing was in flight, +0 for a private task, unchanged for a dirty() of a call with nothing in "
+    "flight); how many entries a dirty() / completion removes (0 or 1 in the model) is compared by the correspondence only",
+    "what remains LAX in the observer, on purpose or for lack of information (all of it is compared exactly by the "
+    "correspondence, CORR): (1) the outcome in `complete t o` is an INPUT - how the body ended, logged by the body - "
+    "and is tied to what readers receive by the `await` clause, not judged by itself; (2) calls from inside a "
+    "throw()-resumed body may get a private task (the model returns the own task there); (3) the log of start / suspend "
+    "/ resume is written by the harness bodies: a LOST suspend line would make the observer accept later duplicates as "
+    "'inside' calls (a resume / suspend of a never-started task is rejected); (4) the empty history is accepted. There "
+    "is no 'spec = exactly the model' theorem for C12: the observer is the statement (bindings, no key tuples), the model "
+    "is the code",
 ]
 CASE_TIMEOUT = 20
 MAXRUNS = 10
@@ -307,12 +346,12 @@ def spell(rng, fi, decl, lc, nthreads, malformed=False):
 
 
 NOFN = ("retire", "opt", "gc", "drive")       # acts whose second element is not a function index
-# (COLLECT_PERF_STATS is not in the list: switched on while tasks exist it makes every task created BEFORE the switch fail
-# at completion in the pure-Python build - AsyncTask.to_str reads self._id, which __init__ sets only when the option is
-# already on.  That is a defect of the profiling option (C20's subject), not of deduplicate; see INTEGRATION.md.)
+# COLLECT_PERF_STATS is in the list since the two defects of the profiling option that made it unusable in mid-flight
+# were repaired in /repo (9ee915e: a task created before the switch must still complete; f0f10a3: an argument that cannot
+# be repr()ed must not fail the task).
 OPTS = ["KEEP_DEPENDENCIES", "DUMP_NEW_TASKS", "DUMP_CONTINUE_TASK", "DUMP_SCHEDULE_BATCH",
         "DUMP_FLUSH_BATCH", "DUMP_COMPUTED", "DUMP_DEPENDENCIES", "DUMP_QUEUED_RESULTS", "DUMP_YIELD_RESULTS",
-        "DUMP_SCHEDULE_TASK", "DUMP_SYNC", "DUMP_EXCEPTIONS"]
+        "DUMP_SCHEDULE_TASK", "DUMP_SYNC", "DUMP_EXCEPTIONS", "COLLECT_PERF_STATS"]
 
 
 def gen_outside(rng, calls):
@@ -987,8 +1026,18 @@ def neighbours(case, rng):
     yield case
 
 
+CONFLATIONS = ("varargs-kwonly", "posonly-varkw", "varargs-varkw-pair")
+
+
 def signature(case, v):
-    return "dedup/%s" % v["spec"]
+    """WHAT fails.  A key conflation is one defect whichever operation shows it (a call answered with the task of a
+    different call, or - since the observer judges len(tasks) exactly where it knows the entry - a dirty() that evicts the
+    entry of a different call): the signature names the conflation, in the form the recorded findings use."""
+    sp = v["spec"]
+    for c in CONFLATIONS:
+        if sp.startswith("fail:%s@" % c):
+            return "dedup/fail:%s@call" % c
+    return "dedup/%s" % sp
 
 
 # ---------------------------------------------------------------------------------------------------
@@ -1030,6 +1079,7 @@ def run_case(case):
     spelling_of = {}      # task token -> the spelling that created it
     made_on_tok = {}      # task token -> token of the thread that created it
     started = set()
+    exit_of = {}          # task token -> how its body ended, as logged by the body: "(val r)" / "(err r)"
     resumed = {}
     done = set()
     runs = [0]
@@ -1082,6 +1132,7 @@ def run_case(case):
     order = [i for i in deco.get("order", []) if isinstance(i, int) and 0 <= i < nfn]
     order = list(dict.fromkeys(order)) + [i for i in range(nfn) if i not in order]
     outer_objs, inner_objs = {}, {}
+    deco_fn = {}
     if len(set(outer_of)) < nfn:
         feat("one-deduplicate-object-on-several-functions")
         if len({json.dumps([fns_decl[i]["pos"], fns_decl[i]["kwonly"], fns_decl[i]["varargs"], fns_decl[i]["varkw"]])
@@ -1120,6 +1171,7 @@ def run_case(case):
         if h not in inner_objs:
             inner_objs[h] = asynq.asynq()
         fn = outer_objs[g](inner_objs[h](ns["body%d" % fi]))
+        deco_fn[fi] = fn
         if d["kind"] == "func":
             setattr(plain, "f%d" % fi, fn)
         elif d["kind"] == "method":
@@ -1229,6 +1281,47 @@ def run_case(case):
         if x == -2:
             return 51
         return x
+
+    # ---- the decoration phase is OBSERVED: the keygetter every real decorated function carries (public attribute
+    # `keygetter` of the DeduplicateDecorator) is applied to probe arguments - the spellings this case uses for the function,
+    # with the instance in front for a call through an instance - before anything runs.  The Lean driver compares each
+    # answer with the keygetter the MODEL's decoration phase (decorateAll) hands to that function.
+    kg_lines = []
+
+    def kg_probe(fi, eff_args, kw):
+        if any((v >= 1000) for _, v in kw) or len(kg_lines) >= 24:
+            return                                   # a (name, value) key element is encodable for value tokens < 1000 only
+        head = "(kg %d (%s) (%s)" % (fi, " ".join(str(x) for x in eff_args), " ".join("(%d %d)" % (n, v) for n, v in kw))
+        if any(l.startswith(head) for l in kg_lines):
+            return
+        try:
+            tup = deco_fn[fi].keygetter(tuple(val(x) for x in eff_args), {"p%d" % n: val(v) for n, v in kw})
+            ans = "(ok %s)" % " ".join(str(vtok(x)) for x in tup)
+        except TypeError:
+            ans = "(typeError)"
+        except Exception as e:  # noqa
+            ans = "(raised %s)" % type(e).__name__          # unparsable for the driver: CORR=diff
+        kg_lines.append("%s %s)" % (head, ans))
+        feat("keygetter-probe")
+
+    per_fn = {}
+    for a in all_acts(case):
+        if a[0] in ("call", "callx", "dirty", "sync", "aio") and len(a) >= 5 and isinstance(a[3], list) and isinstance(a[4], list):
+            fi = a[1] % nfn
+            if per_fn.get(fi, 0) >= 6:
+                continue
+            recv = a[2]
+            eff = list(a[3])
+            if fns_decl[fi]["kind"] == "method" and not isinstance(recv, str):
+                eff = [100 + recv[1] % len(insts)] + eff
+            kwl = [[n, v] for n, v in dict((n, v) for n, v in a[4]).items()]
+            before = len(kg_lines)
+            kg_probe(fi, eff, kwl)
+            per_fn[fi] = per_fn.get(fi, 0) + (len(kg_lines) - before)
+    for fi in range(nfn):
+        # one fixed probe per function whatever the case does: every positional-or-keyword parameter by position
+        d = fns_decl[fi]
+        kg_probe(fi, [(100 if (d["kind"] == "method" and i == 0) else 1) for i in range(len(d["pos"]))], [])
 
     stored = {}
 
@@ -1396,7 +1489,11 @@ def run_case(case):
                             feat("complete-base-exception")
                         except BaseException:  # noqa
                             o = "(err %d)" % UNKNOWN
-                        log.append("(obs (complete %d %s) (unit) %d)" % (t, o, size()))
+                        # the operation carries how the BODY ended (written by the body itself just before it returned /
+                        # raised); what this subscriber READS from the task is an `await` observation of its own
+                        log.append("(obs (complete %d %s) (unit) %d)" % (t, exit_of.get(t, o), size()))
+                        log.append("(obs (await %d) (got %s) %d)" % (t, o, size()))
+                        feat("reader:completion-subscriber")
                     task.on_computed.subscribe(cb)
                 t = tok_of[id(task)]
                 res = "(ret %d %d)" % (t, 1 if new else 0)
@@ -1545,22 +1642,42 @@ def run_case(case):
         """asyncio mode, top level only: 0 `await f.asyncio(args)`; 1 / 2 an @asynq() function run by .asyncio() that yields
         one / two `f.asynq(args)` (in asyncio mode .asynq() hands the call to .asyncio(): no task, no table)"""
         import asyncio
-        fi, recv, a, k = args_of(fi, recv, args, kw)
+        kwl = [[n, v] for n, v in dict((n, v) for n, v in kw).items()]
+        fi, recv, a, k = args_of(fi, recv, args, kwl)
         f = target(fi, recv)
+        coros = []
+
+        def aio_call():
+            """`.asynq()` under a running fn.asyncio(): an operation of the history (Lean: Op.aioCall) - the answer must be
+            a coroutine (not a task), a new object for every call, and the table stays as it is"""
+            x = f.asynq(*a, **k)
+            if isinstance(x, futures.FutureBase) or not inspect.isawaitable(x):
+                res = "(raised NotACoroutine)"
+            elif any(x is y for y in coros):
+                res = "(raised SameCoroutine)"
+            else:
+                res = "(coro)"
+            coros.append(x)
+            log.append("(obs (aioCall %s) %s %d)" % (fmt_spell(fi, recv, args, kwl, 0), res, size()))
+            feat("asyncio-mode-asynq-call")
+            return x
 
         @asynq.asynq()
         def outer():
             if variant % 3 == 1:
-                return (yield f.asynq(*a, **k))
-            return (yield [f.asynq(*a, **k), f.asynq(*a, **k)])
+                return (yield aio_call())
+            return (yield [aio_call(), aio_call()])
 
         async def direct():
             return await f.asyncio(*a, **k)
 
         foreign[0] += 1
+        before_runs = feats.get("body-run-outside-the-history", 0)
         try:
             r = asyncio.run(direct() if variant % 3 == 0 else outer.asyncio())
             feat("asyncio-mode-use:" + ("value" if r is not None else "none"))
+            if len(coros) == 2 and feats.get("body-run-outside-the-history", 0) - before_runs == 2:
+                feat("asyncio-mode-two-calls-one-key-ran-the-body-twice")   # not deduplicated: outside the statement
         except Exception as e:  # noqa
             feat("asyncio-mode-use:raised-" + type(e).__name__)
         finally:
@@ -1578,9 +1695,12 @@ def run_case(case):
         th = th % 3
         feat("driven-by-" + ("creating-thread" if thtok(th) == made_on_tok.get(t) else "another-thread"))
         try:
-            on_thread(th, objs[t].value)
-        except (UserErr, BaseErr):
-            pass
+            v = on_thread(th, objs[t].value)
+        except (UserErr, BaseErr) as e:
+            log.append("(obs (await %d) (got %s) %d)" % (t, outcome_str(None, e), size()))
+        else:
+            log.append("(obs (await %d) (got %s) %d)" % (t, outcome_str(v, None), size()))
+        feat("reader:value()-on-driving-thread")
 
     def do_outside(a):
         if not alive[0]:
@@ -1681,12 +1801,44 @@ def run_case(case):
                 log.append("(obs (resume %d 0) (unit) %d)" % (t, size()))
         inside(script.get("post", []))
         if script["end"] == "raise":
+            exit_of[t] = "(err %d)" % r
             raise UserErr(r)
         if script["end"] == "raisebase":
+            exit_of[t] = "(err %d)" % r
             raise BaseErr(r)
+        exit_of[t] = "(val %d)" % r
         return ("v", r)
 
     H.run = run
+
+    # ---- what the callers RECEIVE ("all callers receive the same value or error") ----------------------------------
+    def outcome_str(v, e):
+        if e is not None:
+            return "(err %d)" % (e.args[0] if isinstance(e, (UserErr, BaseErr)) and e.args and isinstance(e.args[0], int)
+                                 else UNKNOWN)
+        return "(val %d)" % (v[1] if isinstance(v, tuple) and len(v) == 2 and isinstance(v[1], int) else UNKNOWN)
+
+    def received(deps, got, exc):
+        """an actor that yielded `deps` was resumed with the list `got` / by throw(exc): one `await` observation per
+        deduplicated task among the deps that has completed - the value the actor was SENT, or the error it was THROWN"""
+        if not alive[0]:
+            return
+        for i, dep in enumerate(deps):
+            t = tok_of.get(id(dep))
+            if t is None or objs[t] is not dep:
+                continue
+            if got is not None:
+                o = outcome_str(got[i], None)
+            elif dep.is_computed():
+                err = dep.error()
+                if err is not None:
+                    o = outcome_str(None, exc if err is exc else err)
+                else:
+                    o = outcome_str(dep.value(), None)
+            else:
+                continue                    # still in flight when another dependency failed: nothing received
+            log.append("(obs (await %d) (got %s) %d)" % (t, o, size()))
+            feat("reader:awaiting-caller")
 
     # ---- actors ---------------------------------------------------------------------------------
     @asynq.asynq()
@@ -1718,9 +1870,11 @@ def run_case(case):
             else:
                 deps = [HItem()]
             try:
-                yield deps
-            except (UserErr, BaseErr):
-                pass
+                got = yield deps
+            except (UserErr, BaseErr) as e:
+                received(deps, None, e)
+            else:
+                received(deps, got, None)
 
     @asynq.asynq()
     def root(actors):
@@ -1773,6 +1927,7 @@ def run_case(case):
         hdr.append("(fn %s (%s) (%s) %d %d %d)" % (d["kind"], ps(d["pos"]), ps(d["kwonly"]),
                                                    1 if d["varargs"] else 0, 1 if d["varkw"] else 0, d.get("posonly", 0)))
     hdr.append("(deco %d %s)" % (nfn, " ".join("(%d %d)" % (fi, outer_of[fi]) for fi in order)))
+    hdr.extend(kg_lines)
     lines = ["(case dedup %d %s)" % (case["id"], " ".join(hdr))] + log + ["(end)"]
     fl = sorted(feats)
     fl += ["kind=" + k for k in sorted({d["kind"] for d in fns_decl})]
